@@ -95,11 +95,13 @@ def replay_reject_twophase(model):
     return True, {"what": f"relative_permeabilities_twophase accepted inadmissible parameters (Sw={sw!r}) without an error", "inputs": m}
 
 
-def replay_twophase(model, exps=(2, 2, 2), again=False):
+def replay_twophase(model, exps=(2, 2, 2), again=False, int_zero_water=False):
     import numpy as np
     from bluebonnet.flow import flowproperties as fp
     m = model_floats(model, PNAMES + ["Sw"], default={k: 0.0 for k in PNAMES + ["Sw"]})
     m.update(dict(zip(("n_o", "n_w", "n_g"), exps)))
+    if int_zero_water:
+        m["S_wc"], m["Sw"] = 0, 0          # no connate water, both written as the Python int 0
     params = fp.RelPermParams(**{k: m[k] for k in PNAMES})
     try:
         with np.errstate(all="ignore"):
@@ -109,8 +111,8 @@ def replay_twophase(model, exps=(2, 2, 2), again=False):
                 for c in ("So", "Sw", "Sg", "kro", "krw", "krg"):
                     df[c] = df[c] * 100 + 1
                 df = fp.relative_permeabilities_twophase(fp.RelPermParams(**{k: m[k] for k in PNAMES}), m["Sw"])
-    except ValueError as ex:
-        return (m["Sw"] <= m["S_wc"]), {"what": f"raised {ex}", "inputs": m}
+    except (ValueError, TypeError) as ex:
+        return (m["Sw"] <= m["S_wc"]), {"what": f"raised {ex!r}", "inputs": m}
     if m["Sw"] > m["S_wc"]:
         return True, {"what": "Sw above connate water saturation accepted", "inputs": m}
     tot = np.abs(df["So"] + df["Sw"] + df["Sg"] - 1).max()
@@ -294,7 +296,7 @@ def job_reject_mixed(job):
                 job.record(f"reject/mixed[{bad_at},{sense}]: {raised} of {len(res)} path(s) raise ValueError", "unsat" if raised == len(res) else "see paths", 0.0)
 
 
-def job_twophase(job, exps, again=False):
+def job_twophase(job, exps, again=False, int_zero_water=False):
     """`again`: the table of a first call is modified in place by its caller (saturations to percent), then the same curves
     are requested again with equal arguments: the second table must be the Brooks-Corey table, not the caller's edit."""
     mod = _load()
@@ -304,7 +306,15 @@ def job_twophase(job, exps, again=False):
     params, pv, dom = _params(mod, exps)
     sw = fresh("Sw")
     dom = dom + [T.b_le0(T.p_neg(P(sw))), T.b_le(P(sw), T.ONE)]
-    tag = ",".join(map(str, exps)) + (";second call after the caller edited the first table" if again else "")
+    if int_zero_water:
+        # no connate water, written the way a user writes it: S_wc = 0 and Sw = 0 as Python ints (the water column of the
+        # helper's table is then an integer array)
+        from ..sx.sym import QI
+        params = params._replace(S_wc=QI(0))
+        pv = dict(pv, S_wc=QI(0))
+        sw = QI(0)
+        job.bound(water="S_wc = 0 and Sw = 0 given as Python ints")
+    tag = ",".join(map(str, exps)) + (";second call after the caller edited the first table" if again else "") + (";S_wc = Sw = 0 as Python ints" if int_zero_water else "")
 
     def run():
         df = mod.relative_permeabilities_twophase(params, sw)
@@ -313,8 +323,8 @@ def job_twophase(job, exps, again=False):
                 df[c] = df[c] * 100 + 1
             df = mod.relative_permeabilities_twophase(mod.RelPermParams(*tuple(params)), sw)
         return df
-    res = paths(job, run, dom, catch=(ValueError,))
-    rp = (replay_twophase, {"exps": list(exps), "again": again})
+    res = paths(job, run, dom, catch=(ValueError, TypeError))
+    rp = (replay_twophase, {"exps": list(exps), "again": again, "int_zero_water": int_zero_water})
     for k, pr in enumerate(res):
         if pr.exc is not None:
             # must only happen for Sw > S_wc
@@ -343,5 +353,6 @@ def jobs(tier):
     out.append(("reject", job_reject))
     out.append(("reject-mixed", job_reject_mixed))
     out.append(("twophase-n2-asked-again", lambda j: job_twophase(j, (2, 2, 2), True)))
+    out.append(("twophase-n2-int-zero-water", lambda j: job_twophase(j, (2, 2, 2), False, True)))
     out += [(f"twophase-n{e[0]}", (lambda j, e=e: job_twophase(j, e))) for e in ([(2, 2, 2)] if tier == "quick" else [(1, 1, 1), (2, 2, 2), (3, 3, 3)])]
     return out
